@@ -48,9 +48,17 @@ FUNCS = {
     "numpy.array": lambda a: a,
     "numpy.asarray": lambda a: a,
 }
+def _fold(name):
+    def f(a, b, *more):
+        r = sp.Function(name)(a, b)
+        for m in more:
+            r = sp.Function(name)(r, m)
+        return r
+    return f
+
+
 BUILTINS = {"abs": sp.Abs, "float": lambda a: a, "int": lambda a: a,
-            "min": lambda a, b: sp.Function("minimum")(a, b),
-            "max": lambda a, b: sp.Function("maximum")(a, b)}
+            "min": _fold("minimum"), "max": _fold("maximum")}
 
 
 class Translator:
@@ -139,6 +147,13 @@ class Translator:
             k = norm(n)
             if k in self.env:
                 return self.env[k]
+            if isinstance(n.value, ast.Name) and isinstance(
+                    self.env.get(n.value.id), tuple) and \
+                    isinstance(n.slice, ast.Constant) and \
+                    isinstance(n.slice.value, int) and \
+                    -len(self.env[n.value.id]) <= n.slice.value < \
+                    len(self.env[n.value.id]):
+                return self.env[n.value.id][n.slice.value]
             if self.attr_symbols:
                 return self.sym("v_" + "".join(
                     c if c.isalnum() else "_" for c in k))
